@@ -136,6 +136,8 @@ def check_c02(pid, tier, seed, replay):
         open(sub, "w").write("\n".join(pick) + "\n")
         obs = M.run_obs(ck, sub, slice_, levels="0,1,2", bound=steps + 10, timeout_ms=2500)
         M.validate_traces(ck, obs, 14, classify_c02, "R-%s" % slice_)
+        if ck.enough():
+            return ck.finish()
         if lpick:
             open(sub, "w").write("\n".join(lpick) + "\n")
             obs = M.run_obs(ck, sub, slice_ + "_loop", levels="0,1,2", bound=steps + 10, timeout_ms=250)
@@ -283,6 +285,8 @@ def check_c10(pid, tier, seed, replay):
         progs = [json.loads(l) for l in lines]
         run_cases(progs, "R-" + slice_)
         ck.sample(M.prog_text(progs[3]["prog"]))
+        if ck.enough():
+            return ck.finish()
     # each guard is needed: without it the specification itself violates the property
     mc_opt(ck, "opt2", 3, 14, guards='{"area", "budget"}', invs=("NoEff",), expect_violation="NoEff")
     mc_opt(ck, "io", 2, 10, guards='{"kind", "budget"}', invs=("NoEff",), expect_violation="NoEff")
